@@ -50,6 +50,10 @@ Inductive case :=
           (obs_domains : list (bytes * N))              (* /control/stats top_queried_domains *)
           (obs_clients : list (bytes * bytes * N))      (* /control/stats top_clients: ClientID or address *)
           (obs_total : N)                               (* num_dns_queries *)
+          (* stats.db read after Close, bucket by bucket in the order of the unit ids,
+             empty units left out: client keys, domains, NTotal of each stored unit
+             (None: not observed, the unit clock was the wall clock) *)
+          (obs_db : option (list (list (bytes * bytes * N) * list (bytes * N) * N)))
   (* the REAL finder wrappers of internal/home/clients.go on a registry built by
      [ops]: findMultiple(ids).IgnoreQueryLog and shouldCountClient(ids) *)
   | CFinder (ops : list op) (dhcp : list (addr * bytes)) (ids : list id) (obs_ignore_qlog obs_count : bool).
@@ -166,10 +170,29 @@ Fixpoint replay (names : list bytes) refuse macs (r : rstate) (evs : list sev) :
       (r'', ok && ok')
   end.
 
-Definition final_ok (ev : env) mac_of (st : store) obs_old obs_file obs_domains (obs_clients : list (bytes * bytes * N)) obs_total : bool :=
+(** stats.db after Close: the stored units, then the unit that was current,
+    each holding exactly its counted records (no report-side filter). *)
+Definition unit_ok (u : list sentry) (o : list (bytes * bytes * N) * list (bytes * N) * N) : bool :=
+  match o with
+  | (oc, od, ot) =>
+      counts_match eqb_bb (map stat_key u) oc &&
+      counts_match eqb_bytes (map (fun s => fst (fst s)) u) od &&
+      (N.of_nat (length u) =? ot)
+  end.
+Definition db_ok (st : store) (obs : option (list (list (bytes * bytes * N) * list (bytes * N) * N))) : bool :=
+  match obs with
+  | None => true
+  | Some units =>
+      let model := filter (fun u => negb (Nat.eqb (length u) 0)) (st_units st ++ [st_stats st]) in
+      Nat.eqb (length model) (length units) &&
+      forallb (fun p => unit_ok (fst p) (snd p)) (combine model units)
+  end.
+
+Definition final_ok (ev : env) mac_of (st : store) obs_old obs_file obs_domains (obs_clients : list (bytes * bytes * N)) obs_total obs_db : bool :=
   eqb_list eqb_lentry (map canon_entry (st_old st)) obs_old &&
   eqb_list eqb_lentry (map canon_entry (st_file st ++ st_mem st)) obs_file &&
-  stats_ok ev mac_of st obs_domains obs_clients obs_total.
+  stats_ok ev mac_of st obs_domains obs_clients obs_total &&
+  db_ok st obs_db.
 
 (** The harness starts the query log on an existing, empty querylog.json. *)
 Definition init_store : store :=
@@ -181,12 +204,12 @@ Definition init_state anon qrules qign srules sign : rstate :=
 
 Definition case_ok (c : case) : bool :=
   match c with
-  | CScen anon refuse names qrules qign0 srules sign0 macs evs oo of od oc ot =>
+  | CScen anon refuse names qrules qign0 srules sign0 macs evs oo of od oc ot odb =>
       let qign := combine names qign0 in
       let sign := combine names sign0 in
       let '(r, ok) := replay names refuse macs (init_state anon qrules qign srules sign) evs in
       ok && table_agrees qrules qign && table_agrees srules sign &&
-      final_ok (env_of refuse r) (fun c => bget c macs) (r_st r) oo of od oc ot
+      final_ok (env_of refuse r) (fun c => bget c macs) (r_st r) oo of od oc ot odb
   | CFinder ops dhcp ids oq oc =>
       let ix := run c08_cfg ops empty_index in
       Bool.eqb (qlog_client_ignored ix (fun a => zget a dhcp) ids) oq &&
@@ -197,7 +220,7 @@ Definition mismatches := Base.Run.mismatches case_ok.
 
 Definition explain (c : case) :=
   match c with
-  | CScen anon refuse names qrules qign0 srules sign0 macs evs _ _ _ _ _ =>
+  | CScen anon refuse names qrules qign0 srules sign0 macs evs _ _ _ _ _ _ =>
       let qign := combine names qign0 in
       let sign := combine names sign0 in
       let '(r, ok) := replay names refuse macs (init_state anon qrules qign srules sign) evs in
